@@ -1,33 +1,40 @@
-"""C07 - hand-off between threads and the scheduler; cooperative locks exclude (claimed at reduced scope)."""
+"""C07 - hand-off between threads and the scheduler; cooperative locks exclude."""
 import io, sys
 from symx.run import Obligation
 from props import env
 from props.C06 import make_sched, drive
 
 CLAIM = {
- 'technique': "bounded symbolic execution of the real recoco Lock, callLater and schedule code with z3 (symx): solver-enumerated operation interleavings at operation granularity",
+ 'technique': "bounded symbolic execution of the real recoco Lock, callLater, schedule, Synchronizer, select-hub and Scheduler.run code with z3 (symx): solver-chosen "
+              "schedules - operation interleavings, and real threads stepped one source statement at a time under a preemption bound",
  'text': "(a) 2-3 tasks whose programs are sequences of blocking / non-blocking acquire, release and plain yields on 1-2 real Lock objects run on the real "
          "scheduler: at most one holder at any time, a release with waiters makes exactly one of them the holder and runnable, no waiter stays blocked "
          "while the lock is free, releasing an unheld lock raises in the releasing task only. (b) Scheduler.callLater / CallLaterTask and "
          "Scheduler.schedule / ScheduleTask with every foreign call treated as atomic and interleaved in a symbolic order with cycle() steps: every "
-         "submitted callable runs exactly once, in submission order, from inside the scheduler; a failing callable does not stop the drain; a task woken "
-         "several times before it runs is queued once; the wake-up pinger is pinged whenever work is queued. (c) the threaded select hub's idle()/"
-         "break_idle() with threading.Event replaced by a recording model (hub thread never started): for all sequences up to length 3 (thorough 4) of "
-         "break_idle / schedule / callLater / hub hand-back / idle, a wake-up since the previous idle() makes the next idle() return without blocking, "
-         "otherwise it blocks once for at most CYCLE_MAXIMUM.",
- 'note': "NOT decided (outside the claim, see DESIGN.md): interleavings *inside* callLater/schedule/idle/break_idle/Synchronizer between real threads at "
-         "bytecode granularity - CPython threads cannot be executed symbolically by this engine and a hand-written model of the GIL would verify the model, "
-         "not POX. Trusted: CPython, z3, symx proxies, stub select/clock/pinger.",
+         "submitted callable runs exactly once, in submission order, from inside the scheduler; a task woken several times before it runs is queued once. "
+         "(c) the threaded select hub's idle()/break_idle() at operation granularity for all sequences up to length 3 (thorough 4). "
+         "(d) O4_preempt: foreign threads, the scheduler thread (real Scheduler.run) and in threaded mode the hub thread (real _threadProc) are real threads "
+         "that a controller runs ONE SOURCE STATEMENT of recoco.py at a time; which thread runs next is a solver variable, so every interleaving with at most "
+         "1 (thorough 2) preemptions of 12 scenarios x {inline, threaded hub} is explored (callLater from 1-3 threads incl. the racing creation of the "
+         "CallLaterTask, schedule() of one sleeping task from two threads and from a task, `with scheduler.synchronized()` incl. nesting against a stepping "
+         "task and concurrent callLater): every callable runs exactly once, on the scheduler thread, in per-thread order; the woken task is never queued twice "
+         "nor lost; nothing cooperative runs inside a synchronized section; no deadlock; and no wake-up is left to the polling timeout (a timed wait expires "
+         "only when no thread can run, which is a violation while work is pending).",
+ 'note': "Granularity is the source statement (sys.settrace line events, one point per statement), not the bytecode: races inside one statement (e.g. `x += 1`) "
+         "are outside the claim, as are schedules with more preemptions than the bound. threading.Lock/Event, select and the pinger are models with their "
+         "documented semantics (props/ilv.py); statements of SelectHub._select that touch only locals are not scheduling points (they commute). "
+         "Trusted: CPython, z3, symx proxies, those models.",
 }
-EXPLANATION = ("Real Lock._do_acquire/_do_release through Scheduler.cycle, Scheduler.callLater + CallLaterTask.run, Scheduler.schedule + ScheduleTask.run "
-               "executed over solver-enumerated operation orders; holder/queue/order assertions on every path. Thread interleavings below operation "
-               "granularity are not modelled.")
-FUNCTIONS = ["pox.lib.recoco.recoco.Lock.acquire/release/_do_acquire/_do_release", "Scheduler.callLater/schedule/fast_schedule/cycle", "CallLaterTask.callLater/run",
-             "ScheduleTask.run", "SelectHub.__init__(threaded)/idle/break_idle/_return"]
+EXPLANATION = ("Real Lock._do_acquire/_do_release through Scheduler.cycle, Scheduler.callLater + CallLaterTask.run, Scheduler.schedule + ScheduleTask.run, "
+               "Synchronizer/SyncTask, SelectHub.idle/break_idle/_select/_threadProc and Scheduler.run executed over solver-enumerated operation orders and, "
+               "as real threads under a controlled scheduler, over all statement-level interleavings within the preemption bound; assertions on every path.")
+FUNCTIONS = ["pox.lib.recoco.recoco.Lock.acquire/release/_do_acquire/_do_release", "Scheduler.callLater/schedule/fast_schedule/cycle/run/synchronized", "CallLaterTask.callLater/run",
+             "ScheduleTask.run", "Synchronizer.__enter__/__exit__, SyncTask.run", "SelectHub.__init__(threaded)/idle/break_idle/_return/_select/_threadProc/registerSelect/_cycle"]
 BOUNDS = {}
-OUTSIDE = ["real-thread interleavings at bytecode granularity (race-freedom clauses of the property)", "Synchronizer / SyncTask (real locks and threads)",
-           "more than 3 tasks / 2 locks / 4 foreign calls"]
-ASSUMPTIONS = ["each foreign-thread call (callLater, schedule) is atomic with respect to cycle(), except for the modelled preemption inside the wake-up ping of callLater"]
+OUTSIDE = ["interleavings below statement granularity (inside one source statement) and schedules with more preemptions than the bound",
+           "more than 3 foreign threads / 3 tasks / 2 locks", "CallBlocking / BlockingTask worker threads", "the epoll select variant"]
+ASSUMPTIONS = ["threading.Lock / Event / select.select / the pinger behave as their models in props/ilv.py (documented semantics); C-level operations (deque.append, "
+               "`x in deque`, Queue.put/get) are atomic", "O2: each foreign-thread call is atomic with respect to cycle(), except the modelled preemption inside the wake-up ping (O4 removes this assumption within its bound)"]
 
 OPS = ['acq', 'try', 'rel', 'zero']
 
@@ -409,7 +416,8 @@ def obligations(tier):
   idle_plans = [''.join(p) for n in (1, 2, 3) for p in itertools.product('BWCTI', repeat=n) if 'I' in p]
   if thorough: idle_plans += [''.join(p) for p in itertools.product('BWCTI', repeat=4) if p.count('I') >= 1]
   pre = [dict(scenario=sc, hub=h, bound=1) for sc in SCENARIOS for h in ('inline', 'threaded')]
-  BOUNDS[tier] = dict(lock_programs=len(lp), calllater_plans=cl, idle_plans="all sequences over {B,W,C,T,I} with an idle, length <= %d" % (4 if thorough else 3), legend="c callLater(symbolic: raises?), C callLater preempted inside its wake-up ping (scheduler runs to quiescence there), y scheduler step, w schedule(sleeping task)")
+  if thorough: pre += [dict(scenario=sc, hub=h, bound=2) for sc in ('call1+1', 'wake1+1', 'sync', 'call+wake') for h in ('inline', 'threaded')]
+  BOUNDS[tier] = dict(preempt_scenarios={k: v for k, v in SCENARIOS.items()}, preemption_bound="1 for all scenarios x {inline, threaded}" + ("; 2 for call1+1, wake1+1, sync, call+wake" if thorough else ""), lock_programs=len(lp), calllater_plans=cl, idle_plans="all sequences over {B,W,C,T,I} with an idle, length <= %d" % (4 if thorough else 3), legend="c callLater(symbolic: raises?), C callLater preempted inside its wake-up ping (scheduler runs to quiescence there), y scheduler step, w schedule(sleeping task)")
   return [
     Obligation('O1_locks', h_locks, [dict(progs=p, nlocks=n) for p, n in lp], witnesses=('done', 'unheld-release-raised'), max_decisions=20000, mode='int',
                desc='Lock mutual exclusion / hand-off / no lost waiter over task programs'),
